@@ -8,7 +8,8 @@
    [c]                   use_reg c: registers on/off (both are covered: c is universally quantified);
                          const_test c: the register paths test Constant(name) (repair 8c21b75);
                          ccow c: containers are copied before a write (repairs cec7cc4, 29e3f5f);
-                         strict_eq c: the same-value escape hatch of CreateOrSet is object.Identical (repair cf20a9d). *)
+                         strict_eq c: the same-value escape hatch of CreateOrSet is object.Identical (repair cf20a9d);
+                         fn_env c: identical functions also have the same defining environment (repair of Identical). *)
 From Coq Require Import List ZArith NArith.
 From GrolModel Require Import Containers ConstEnv.
 From GrolProofs Require Import ConstEnv_proofs.
@@ -18,7 +19,7 @@ Import ListNotations.
    top-level binding keeps its value - the very same value: an integer stays an integer, 0.0 stays 0.0, in every
    element, map value and key (object.Identical is equality on the modelled values) - unless the sequence contains
    an explicit del of that name.  The attempts include re-assignment of == values and writes through aliases. *)
-Theorem C19_constant_stable : forall c : ccfg, ccow c = true -> strict_eq c = true ->
+Theorem C19_constant_stable : forall c : ccfg, ccow c = true -> strict_eq c = true -> fn_env c = true ->
   forall (K : name) (v : cval) (evs : list event) (e : env),
   constant_name K = true -> root_wf e -> root_value e K = Some v ->
   forallb (fun ev => negb (event_deletes_name K ev)) evs = true ->
@@ -26,7 +27,7 @@ Theorem C19_constant_stable : forall c : ccfg, ccow c = true -> strict_eq c = tr
 Proof. exact constant_stable. Qed.
 
 (* and the NAME keeps evaluating to that value from every scope *)
-Theorem C19_lookup_stable : forall c : ccfg, ccow c = true -> strict_eq c = true ->
+Theorem C19_lookup_stable : forall c : ccfg, ccow c = true -> strict_eq c = true -> fn_env c = true ->
   forall (K : name) (v : cval) (evs : list event) (e : env) (s : scope),
   constant_name K = true -> root_wf e -> root_value e K = Some v ->
   forallb (fun ev => negb (event_deletes_name K ev)) evs = true ->
@@ -35,7 +36,7 @@ Proof. exact constant_read_stable. Qed.
 
 (* used as a parameter name or as a loop variable, the name is never rebound to another value: the attempt fails,
    or the body reads the constant's value (nil = a loop with no iteration) - registers on or off *)
-Theorem C19_not_shadowed : forall c : ccfg, const_test c = true -> ccow c = true -> strict_eq c = true ->
+Theorem C19_not_shadowed : forall c : ccfg, const_test c = true -> ccow c = true -> strict_eq c = true -> fn_env c = true ->
   forall (K : name) (v : cval) (evs : list event) (e : env) (s : scope) (a : attempt),
   constant_name K = true -> root_wf e -> root_value e K = Some v ->
   forallb (fun ev => negb (event_deletes_name K ev)) evs = true ->
@@ -78,7 +79,7 @@ Proof. vm_compute. repeat split. Qed.
 (* A=[1,2,3]; A=[1.0,2,3] is accepted by the == test and A[0] becomes a float; so are A[0]=1.0, K={1:5};K={1.0:5}
    and Z=0.0;Z=-0.0 - while the scalar N=1;N=1.0 was already refused.  Only the same-value test is the pinned one here *)
 Example C19_refuted_pinned_equals :
-  let c := mkccfg true true true false in
+  let c := mkccfg true true true false true in
   let e0 := root_env [(K_A, arr3)] in
   let k0 := root_env [(K_A, XMap [(ki 1, xi 5)])] in
   let z0 := root_env [(K_A, XNum (NFlt 0))] in
@@ -101,6 +102,7 @@ Example C19_ex_fixed :
               Ev STop (AAssign n_b (ECallSet K_A (ki 1) (xi 97)) false);
               Ev STop (AAssign K_A (ELit (XArr (XNum (NFlt 4) :: map xi [2;3;4;5;6;7;8;9]%Z))) false)] in
   root_wf e0 /\ ccow (repo_ccfg true) = true /\ const_test (repo_ccfg false) = true /\ strict_eq (repo_ccfg true) = true /\
+  fn_env (repo_ccfg false) = true /\
   forallb (fun ev => negb (event_deletes_name K_A ev)) evs = true /\
   root_value (run_events (repo_ccfg true) e0 evs) K_A = Some arr9 /\
   root_value (run_events (repo_ccfg false) e0 evs) K_PI = Some (XNum (NFlt 13)) /\
@@ -120,12 +122,26 @@ Definition n_g : name := [103]%N.                 (* "g" *)
 Definition n_x : name := [120]%N.                 (* "x" *)
 Example C19_ex_closure_computed :
   let c := repo_ccfg true in
-  let evs := [Ev STop (AAssign n_g (EMkClo K_A arr3) false); Ev STop (AAssign K_A (ELit (xi 2)) false);
+  let evs := [Ev STop (AAssign n_g (EMkClo 1 K_A arr3) false); Ev STop (AAssign K_A (ELit (xi 2)) false);
               Ev SFn (AAssign K_A (ELit (xi 3)) false); Ev STop (AAssign n_x (ECallClo n_g) false)] in
   let e1 := run_events c (root_env []) evs in
   root_value e1 n_x = Some arr3 /\ root_value e1 K_A = Some (xi 2) /\
   snd (run_event c (root_env [(K_A, arr9)]) (Ev STop (AAssign K_A (EPlus (ESlice K_A 0 8) (xi 99)) false))) = Err /\
   snd (run_event c (root_env [(K_A, arr9)]) (Ev SLoop (AAssign K_A (EPlus (ESlice K_A 0 8) (xi 9)) true))) = Ok arr9.
+Proof. vm_compute. repeat split. Qed.
+
+(* mk=func(n){func(){n}}; F=mk(1); F=mk(2): with functions compared by text only the constant F is rebound to another
+   closure and F() goes from 1 to 2; with the environment in the comparison the second assignment is refused (and
+   re-assigning the very same function value is still accepted) *)
+Example C19_refuted_pinned_function_text :
+  let pin := mkccfg true true true true false in
+  let evs := [Ev STop (AAssign K_A (EMaker 1 (xi 1)) false); Ev STop (AAssign K_A (EMaker 2 (xi 2)) false);
+              Ev STop (AAssign n_x (ECallClo K_A) false)] in
+  root_value (run_events pin (root_env []) evs) n_x = Some (xi 2) /\
+  root_value (run_events (repo_ccfg true) (root_env []) evs) n_x = Some (xi 1) /\
+  snd (run_event (repo_ccfg true) (root_env [(K_A, XCloLocal 0 1 maker_param (xi 1))]) (Ev SFn (AAssign K_A (EMaker 2 (xi 1)) true))) = Err /\
+  snd (run_event (repo_ccfg true) (root_env [(K_A, XCloLocal 0 1 maker_param (xi 1)); (n_g, XCloLocal 0 1 maker_param (xi 1))])
+                 (Ev STop (AAssign K_A (EName n_g) false))) = Ok (XCloLocal 0 1 maker_param (xi 1)).
 Proof. vm_compute. repeat split. Qed.
 
 Print Assumptions C19_constant_stable.
